@@ -669,6 +669,9 @@ class Daemon(object):
         else:
             objectId = "obj_" + uuid.uuid4().hex  # generate a new objectId
         uri = self.uriFor(objectId)  # (first: an id that cannot appear in a uri is refused before anything is registered)
+        if uri.object != objectId:
+            # (e.g. an id containing '@': the uri, and every proxy made from it, would designate another object)
+            raise errors.DaemonError("object id cannot be used in a uri: " + objectId)
         if inspect.isclass(obj_or_class):
             if weak: raise TypeError("Classes cannot be registered with weak=True.")
             if not hasattr(obj_or_class, "_pyroInstancing"):
